@@ -249,6 +249,9 @@ func locSort(l *Loc) string {
 	if _, isMap := l.Typ.Underlying().(*types.Map); isMap && l.Sub == "" && strings.Contains(l.Heap, "$") {
 		return "(Array Int " + smtSortOf(l.Typ) + ")"
 	}
+	if arr, isArr := l.Typ.Underlying().(*types.Array); isArr && l.Sub == "" {
+		return "(Array Int (Array Int " + elemSort(arr.Elem()) + "))"
+	}
 	es := elemSort(l.Typ)
 	if l.Sub != "" {
 		return "(Array Int (Array Int " + es + "))"
@@ -578,4 +581,29 @@ func eqVals(a, b Val) string {
 		return and(cs...)
 	}
 	return fmt.Sprintf("(= %s %s)", a.T, b.T)
+}
+
+// elemAddr: address of element idx of an array/slice starting at ptr with element size sz. The address is wrapped
+// in an uninterpreted function (ea<sz> ptr idx) whose meaning ptr + sz*idx is given by an axiom with the wrapped
+// term as trigger: quantifier triggers over slice elements then match syntactically, independent of how the
+// solver normalises the index arithmetic.
+func (g *Gen) elemAddr(ptr, idx string, sz int64) string {
+	if n, err := fmt.Sscanf(idx, "%d", new(int64)); err == nil && n == 1 && !strings.ContainsAny(idx, "( ") {
+		var k int64
+		fmt.Sscanf(idx, "%d", &k)
+		if k == 0 {
+			return ptr
+		}
+	}
+	if sz == 1 {
+		return fmt.Sprintf("(+ %s %s)", ptr, idx) // byte addresses stay plain: byte-level specs use p+i directly
+	}
+	name := fmt.Sprintf("ea%d", sz)
+	n := sym(name)
+	if !g.declared[n] {
+		g.declared[n] = true
+		g.decls = append(g.decls, fmt.Sprintf("(declare-fun %s (Int Int) Int)", n))
+		g.decls = append(g.decls, fmt.Sprintf("(assert (forall ((p Int) (k Int)) (! (= (%s p k) (+ p (* %d k))) :pattern ((%s p k)))))", n, sz, n))
+	}
+	return fmt.Sprintf("(%s %s %s)", n, ptr, idx)
 }
